@@ -328,7 +328,7 @@ def shrink(mod, tier, bucket, case0, known, budget, seed):
 
 
 def write_failure(pid, bucket, case, violation):
-    d = os.path.join(HERE, "failures", pid)
+    d = os.path.join(os.environ.get("VERIF_FAILURES_DIR") or os.path.join(HERE, "failures"), pid)
     os.makedirs(d, exist_ok=True)
     name = hashlib.sha1((bucket + canon(case)).encode()).hexdigest()[:12] + ".json"
     p = os.path.join(d, name)
